@@ -4,8 +4,10 @@
    messages, leaving), the service (emitting on / closing its n channels), the
    reader goroutine, the write loop, the adapter, the stoppers and the forwarders
    of one streaming session whose first message is m0; [srun] over several
-   sessions on one server. [fixed] is the code with proposed_fixes/C15-F18.diff and
-   C15-F19.diff, [pinned] the code as it is. [quiescent fx s]: no goroutine of the
+   sessions on one server. [fixed] is the code of /repo as it is now (the repairs of F18,
+   F19 and C15-N1 are fix: commits there; Corr/C15.v compares with this variant),
+   [pinned] the code before those commits, kept so that the refutations stay in
+   the development. [quiescent fx s]: no goroutine of the
    session can move (it waits for the client or the service). *)
 From Coq Require Import List Arith.
 Import ListNotations.
@@ -19,13 +21,13 @@ Theorem c15_no_crash : forall m0 n acts s,
 Proof. exact no_crash. Qed.
 Print Assumptions c15_no_crash.
 
-(* F19: pinned code, a follow-up message races with the end of the stream *)
+(* F19 (repaired in /repo): pinned code, a follow-up message races with the end of the stream *)
 Theorem c15_send_on_closed_refuted :
   exists acts s, run pinned (init (MReq 0) 1) acts = Some s /\ crashed s = true.
 Proof. exact send_on_closed_refuted. Qed.
 Print Assumptions c15_send_on_closed_refuted.
 
-(* F18: pinned code, one undecodable follow-up message, then the service ends ... *)
+(* F18 (repaired in /repo): pinned code, one undecodable follow-up message, then the service ends ... *)
 Theorem c15_double_close_refuted :
   exists acts s, run pinned (init (MReq 0) 1) acts = Some s /\ crashed s = true.
 Proof. exact double_close_refuted. Qed.
@@ -37,7 +39,7 @@ Theorem c15_send_on_closed_out_refuted :
 Proof. exact send_on_closed_out_refuted. Qed.
 Print Assumptions c15_send_on_closed_out_refuted.
 
-(* C15-N1: pinned code, two requests on two service channels, the first one ends *)
+(* C15-N1 (repaired in /repo): pinned code, two requests on two service channels, the first one ends *)
 Theorem c15_first_end_refuted :
   exists acts s, run pinned (init (MReq 0) 2) acts = Some s /\ crashed s = true.
 Proof. exact first_end_refuted. Qed.
